@@ -134,6 +134,19 @@ CHECKS = {
         "comparisons in which the general solver itself used its template fallback are counted "
         "as trivial and excluded from distinct_nontrivial",
         "DESIGN.md §4 C15"),
+    "C20": (
+        "reference-model monitor: direct J_b/J_f, every shipped table row, spline mid-points "
+        "and derivatives compared with an mpmath reference (cross-checked against a Bessel "
+        "series and a closed-form envelope every run); recording wrapper on the integrals "
+        "object inside EffectivePotentialNoResum; before/after state monitor on the "
+        "module-global defaultIntegrals",
+        "All 20000 table rows in both tiers, direct integrals on [-60,3000] dense at the "
+        "thresholds, all 16 extrapolation mode pairs beyond both table ends, random particle "
+        "content over five decades of T incl. continuity scans in m^2 for every imaginary "
+        "option. Held on the executions observed except for the listed known finding.",
+        "mpmath tanh-sinh quadrature with explicit break points is the reference; tolerances "
+        "from scipy quad's own termination criterion and the documented cubic-spline design",
+        "DESIGN.md §4 C20"),
 }
 
 ALL = [f"C{i:02d}" for i in range(1, 21)]
